@@ -25,8 +25,8 @@ structure LSetupOk (L : LSetup) : Prop where
   liveT : ∀ i, (i, true) ∈ L.T → L.c.live i = true
   used : ∀ i, (i, true) ∈ L.T → L.BR (L.c.fnOf i) = true →
     (∀ x ∈ L.c.reads i, L.D2 x = false) ∧ ∀ g ∈ L.c.callees i, ∀ x ∈ L.c.transReads g, L.D2 x = false
-  sumR : ∀ i g, g ∈ L.c.callees i → ∀ x ∈ L.c.transReads g, x ∈ L.c.transReads (L.c.fnOf i)
-  sumW : ∀ i g, g ∈ L.c.callees i → ∀ x ∈ L.c.transWrites g, x ∈ L.c.transWrites (L.c.fnOf i)
+  sumR : ∀ i, (i, true) ∈ L.T → ∀ g ∈ L.c.callees i, ∀ x ∈ L.c.transReads g, x ∈ L.c.transReads (L.c.fnOf i)
+  sumW : ∀ i, (i, true) ∈ L.T → ∀ g ∈ L.c.callees i, ∀ x ∈ L.c.transWrites g, x ∈ L.c.transWrites (L.c.fnOf i)
   slOk : ∀ (b : List Stmt) x, x ∈ L.c.scopeLocalsOf b → ∃ tg, blockTag L.ss b = some tg ∧ L.ds x = some tg
   scOwn : ∀ x tg, L.ds x = some tg → L.scopeOwner tg = L.c.owner x
 
@@ -41,7 +41,7 @@ structure ActOk (L : LSetup) (f : Nat) (σ : SigM) (Γr : List Frame) : Prop whe
 structure ExprCtx (L : LSetup) (f : Nat) (σ : SigM) (A : Nat → Prop) (i : Nat) : Prop where
   aReads : ∀ x ∈ L.c.reads i, A x
   aCallee : ∀ g ∈ L.c.callees i, ∀ x ∈ L.c.transReads g, L.c.owner x = some f → A x
-  mOk : ∀ p ∈ σ, ∀ l, p.2 l → L.refFreeB l i = true
+  mOk : ∀ p ∈ σ, ∀ l, p.2 l → L.c.refFreeB l i = true
   inT : (i, true) ∈ L.T
   fn : L.c.fnOf i = f
   br : L.BR f = true
@@ -49,9 +49,10 @@ structure ExprCtx (L : LSetup) (f : Nat) (σ : SigM) (A : Nat → Prop) (i : Nat
 def FnsOkL (L : LSetup) (fns : List (List FnDef)) : Prop :=
   ∀ sc ∈ fns, ∀ fd ∈ sc, fnOkB L fd.id fd.params fd.body = true
 
-/-- Invariant of the plain run. -/
+/-- Invariant of the plain run: T1's invariant, and every registered function is well-formed for the
+simulation. -/
 def LInv (L : LSetup) (st : St V) : Prop :=
-  Inv L.T st ∧ FnsOkL L st.fns ∧ (∀ g ∈ st.looked, L.BR g = true)
+  Inv L.T st ∧ FnsOkL L st.fns
 
 /-- Pruned state vs plain state. -/
 def LRel (L : LSetup) (Γ : List Frame) (a b : St V) : Prop :=
@@ -59,6 +60,21 @@ def LRel (L : LSetup) (Γ : List Frame) (a b : St V) : Prop :=
 
 def LOut {α : Type} (L : LSetup) (Γ : List Frame) (a b : R V α) : Prop :=
   Bad b.1 ∨ (a.1 = b.1 ∧ LRel L Γ a.2 b.2)
+
+/-- What the simulation needs of an initialiser the plan may drop (`L.q`): in the plain run, from a
+state whose registered functions are well-formed, evaluating it yields a value (or ends in one of the
+excluded ways) and restores variables, function scopes and output. -/
+def QuietIn (P : Prims V) (L : LSetup) : Prop :=
+  ∀ (f : Nat) (e : Expr) (n : Nat) (st : St V), L.q f e = true → FnsOkL L st.fns →
+    ((∃ v, (evalExpr P plain n e st).1 = .ok v) ∨ Bad (evalExpr P plain n e st).1) ∧
+    (evalExpr P plain n e st).2.env = st.env ∧ (evalExpr P plain n e st).2.out = st.out ∧
+    (evalExpr P plain n e st).2.fns = st.fns
+
+theorem quietIn_of_quiet {P : Prims V} {L : LSetup} (h : ∀ f e, L.q f e = true → Quiet P e) : QuietIn P L := by
+  intro f e n st hq _
+  obtain ⟨h1, h2⟩ := h f e hq plain n st
+  rw [h1]
+  exact ⟨h2.elim Or.inl (fun hb => Or.inr hb.bad), rfl, rfl, rfl⟩
 
 /-- The agreement set covers the live set (never-read locals excepted). -/
 def Need (L : LSetup) (live : List Nat) (A : Nat → Prop) : Prop := ∀ x ∈ live, L.D2 x = false → A x
@@ -81,17 +97,17 @@ theorem inTags_iff {L : LSetup} {σ : List (Option Nat)} {x : Nat} :
   | none => simp
   | some tg => simp
 
-theorem refFree_reads {L : LSetup} {l j : Nat} (h : L.refFreeB l j = true) : l ∉ L.c.reads j := by
-  simp only [LSetup.refFreeB, Bool.and_eq_true, Bool.not_eq_true', List.contains_eq_mem, decide_eq_false_iff_not] at h
+theorem refFree_reads {L : LSetup} {l j : Nat} (h : L.c.refFreeB l j = true) : l ∉ L.c.reads j := by
+  simp only [Ctx.refFreeB, Bool.and_eq_true, Bool.not_eq_true', List.contains_eq_mem, decide_eq_false_iff_not] at h
   exact h.1.1
 
-theorem refFree_writes {L : LSetup} {l j : Nat} (h : L.refFreeB l j = true) : l ∉ L.c.writes j := by
-  simp only [LSetup.refFreeB, Bool.and_eq_true, Bool.not_eq_true', List.contains_eq_mem, decide_eq_false_iff_not] at h
+theorem refFree_writes {L : LSetup} {l j : Nat} (h : L.c.refFreeB l j = true) : l ∉ L.c.writes j := by
+  simp only [Ctx.refFreeB, Bool.and_eq_true, Bool.not_eq_true', List.contains_eq_mem, decide_eq_false_iff_not] at h
   exact h.1.2
 
-theorem refFree_callee {L : LSetup} {l j g : Nat} (h : L.refFreeB l j = true) (hg : g ∈ L.c.callees j) :
+theorem refFree_callee {L : LSetup} {l j g : Nat} (h : L.c.refFreeB l j = true) (hg : g ∈ L.c.callees j) :
     l ∉ L.c.transReads g ∧ l ∉ L.c.transWrites g := by
-  simp only [LSetup.refFreeB, Bool.and_eq_true, List.all_eq_true, Bool.not_eq_true', List.contains_eq_mem,
+  simp only [Ctx.refFreeB, Bool.and_eq_true, List.all_eq_true, Bool.not_eq_true', List.contains_eq_mem,
     decide_eq_false_iff_not] at h
   exact h.2 g hg
 
@@ -175,8 +191,8 @@ def blockLocals (L : LSetup) (b : List Stmt) (x : Nat) : Prop := ∃ tg, blockTa
 
 /-- Every local whose declaration was skipped in a scope of the activation is not referred to by
 the statements still to be executed. -/
-def MOkList (L : LSetup) (σ : SigM) (ss : List Stmt) : Prop := ∀ p ∈ σ, ∀ l, p.2 l → noRefListB L l ss = true
-def MOkStmt (L : LSetup) (σ : SigM) (s : Stmt) : Prop := ∀ p ∈ σ, ∀ l, p.2 l → noRefB L l s = true
+def MOkList (L : LSetup) (σ : SigM) (ss : List Stmt) : Prop := ∀ p ∈ σ, ∀ l, p.2 l → noRefListB L.c l ss = true
+def MOkStmt (L : LSetup) (σ : SigM) (s : Stmt) : Prop := ∀ p ∈ σ, ∀ l, p.2 l → noRefB L.c l s = true
 
 structure LSim (P : Prims V) (L : LSetup) (n : Nat) : Prop where
   expr : ∀ (e : Expr) (a b : St V) (f i : Nat) (σ : SigM) (Γr : List Frame) (A : Nat → Prop),
@@ -281,7 +297,7 @@ theorem lstep_var (hd : P.dscope = L.ds) (hs : LSetupOk L) (nm : Bytes) (bd : Op
   rw [e]
   cases bd.bind (fun id => lookupEnv L.ds id b.env) with
   | some v => exact ⟨Or.inr ⟨rfl, hr⟩, hi⟩
-  | none => exact ⟨Or.inl (Or.inr rfl), hi⟩
+  | none => exact ⟨Or.inl bad_unbound, hi⟩
 
 theorem lstep_logic (ih : LSim P L n) (l r : Expr) (a b : St V) (f i : Nat) (σ : SigM) (Γr : List Frame) (A : Nat → Prop)
     (hl : L.efitList f (tagsOf σ) i [l] = true) (hrr : L.efitList f (tagsOf σ) i [r] = true)
@@ -345,12 +361,12 @@ theorem lstep_generic (hd : P.dscope = L.ds) (hs : LSetupOk L) (ih : LSim P L n)
     simpa using this
   rw [e1]
   cases readAll L.ds s2.env (interpIds e) with
-  | none => exact ⟨Or.inl (Or.inr rfl), hq⟩
+  | none => exact ⟨Or.inl bad_unbound, hq⟩
   | some rs => exact ⟨Or.inr ⟨rfl, hrel'⟩, hq⟩
 
 theorem linv_pop {st : St V} (h : LInv L st) :
     LInv L { st with env := st.env.drop 1, fns := st.fns.drop 1 } :=
-  ⟨⟨FnsOk.drop h.1.1, h.1.2⟩, fun sc hsc => h.2.1 sc (List.mem_of_mem_drop hsc), h.2.2⟩
+  ⟨⟨FnsOk.drop h.1.1, h.1.2⟩, fun sc hsc => h.2 sc (List.mem_of_mem_drop hsc)⟩
 
 theorem lrel_pop {fr : Frame} {Γ : List Frame} {a b : St V} (h : LRel L (fr :: Γ) a b) :
     LRel L Γ { a with env := a.env.drop 1, fns := a.fns.drop 1 } { b with env := b.env.drop 1, fns := b.fns.drop 1 } :=
@@ -395,18 +411,22 @@ theorem actOk_callee (hs : LSetupOk L) {f i g : Nat} {σ : SigM} {Γr : List Fra
     · have := ha.susp fr hfr x tg hx ht
       have e := hc.fn
       constructor
-      · intro hR; exact this.1 (by rw [← e]; exact hs.sumR i g hg x hR)
-      · intro hW; exact this.2 (by rw [← e]; exact hs.sumW i g hg x hW)
+      · intro hR; exact this.1 (by rw [← e]; exact hs.sumR i hc.inT g hg x hR)
+      · intro hW; exact this.2 (by rw [← e]; exact hs.sumW i hc.inT g hg x hW)
 
 theorem fnOk_parts {g : Nat} {ps : List Param} {body : List Stmt} (h : fnOkB L g ps body = true) :
     L.blockOkB g [paramTag L.ds ps] body = true ∧ (∀ tg, paramTag L.ds ps = some tg → L.scopeOwner tg = some g) ∧
     lokListB L g [blockTag L.ss body, paramTag L.ds ps] { brk := none, cont := none, kills := [] } body (boundary []) = true := by
   simp only [fnOkB, Bool.and_eq_true] at h
-  refine ⟨h.1.1, ?_, h.2⟩
+  refine ⟨h.1.1.1, ?_, h.2⟩
   intro tg htg
-  have := h.1.2
+  have := h.1.1.2
   rw [htg] at this
   simpa using this
+
+theorem fnOk_pure {g : Nat} {ps : List Param} {body : List Stmt} (h : fnOkB L g ps body = true) : L.pureFnB g ps body = true := by
+  simp only [fnOkB, Bool.and_eq_true] at h
+  exact h.1.2
 
 theorem lstep_userCall (hd : P.dscope = L.ds) (hs : LSetupOk L) (ih : LSim P L n) (args : List Expr) (g : Nat) (a b : St V)
     (f i : Nat) (σ : SigM) (Γr : List Frame) (A : Nat → Prop)
@@ -467,17 +487,13 @@ theorem lstep_userCall (hd : P.dscope = L.ds) (hs : LSetupOk L) (ih : LSim P L n
   have e2 : findFnC plain g b.fns = findFn g b.fns := by simp [findFnC, plain, Cfg.ofPlan]
   rw [e1, e2]
   have hi0 : LInv L { b with looked := g :: b.looked } :=
-    ⟨hi.1, hi.2.1, by
-      intro g' hg'
-      rcases List.mem_cons.mp hg' with rfl | hg'
-      · exact hbr
-      · exact hi.2.2 g' hg'⟩
+    ⟨hi.1, hi.2⟩
   have hr0 : LRel L (mkTop A σ ++ Γr) { a with looked := g :: a.looked } { b with looked := g :: b.looked } := hr
   cases hfd : findFn g b.fns with
   | none => exact ⟨Or.inr ⟨rfl, hr0⟩, hi0⟩
   | some fd =>
     have hbody := findFn_ok hi.1.1 hfd
-    have hfn := fnOk_parts (findFn_okL hi.2.1 hfd)
+    have hfn := fnOk_parts (findFn_okL hi.2 hfd)
     have hid := findFn_id hfd
     simp only []
     obtain ⟨ho, hq⟩ := ih.list args _ _ f i σ Γr A hargs ha hc hr0 hi0
@@ -497,8 +513,7 @@ theorem lstep_userCall (hd : P.dscope = L.ds) (hs : LSetupOk L) (ih : LSim P L n
           intro sc hsc
           rcases List.mem_cons.mp hsc with rfl | h'
           · intro fd hfd; cases hfd
-          · exact hq.2.1 sc h',
-         hq.2.2⟩
+          · exact hq.2 sc h'⟩
       have hact := actOk_callee hs ha hc hg (paramTag L.ds fd.params) (by rw [← hid]; exact hfn.2.1)
       obtain ⟨ho3, hq3⟩ := ih.block fd.body _ _ fd.id [(paramTag L.ds fd.params, fun _ => False)] (mkTop A σ ++ Γr)
         { brk := none, cont := none, kills := [] } (boundary []) (fun _ => True) hbody
@@ -511,9 +526,10 @@ theorem lstep_userCall (hd : P.dscope = L.ds) (hs : LSetupOk L) (ih : LSim P L n
       obtain ⟨x1, t1⟩ := r1
       have hpop := linv_pop hq3
       rcases ho3 with hbad | ⟨heq, A', hrel3, _⟩
-      · rcases hbad with hb | hb <;> (simp only at hb; subst hb)
-        · exact ⟨Or.inl (Or.inl rfl), hpop⟩
-        · exact ⟨Or.inl (Or.inr rfl), hpop⟩
+      · rcases hbad with hb | hb | hb <;> (simp only at hb; subst hb)
+        · exact ⟨Or.inl bad_fuel, hpop⟩
+        · exact ⟨Or.inl bad_unbound, hpop⟩
+        · exact ⟨Or.inl bad_panic, hpop⟩
       · simp only at heq
         subst heq
         have hrp : LRel L (mkTop A σ ++ Γr) { t1 with env := t1.env.drop 1, fns := t1.fns.drop 1 }
@@ -643,7 +659,7 @@ theorem lstep_expr (hd : P.dscope = L.ds) (hs : LSetupOk L) (ih : LSim P L n) : 
           have el : lookupEnv L.ds root s1.env = lookupEnv L.ds root s2.env := fit_lookup hs ha hc hroot hrel'.2.2
           rw [el]
           cases lookupEnv L.ds root s2.env with
-          | none => exact ⟨Or.inl (Or.inr rfl), hq2⟩
+          | none => exact ⟨Or.inl bad_unbound, hq2⟩
           | some old =>
             simp only []
             cases P.mutMember field old v vargs with
